@@ -1016,6 +1016,13 @@ class RoundGen:
         if gname is None:
             return
         ref = {"src": src, "query": q}
+        if fault is None and q.endswith(".*") and rng.random() < 0.15:
+            # children of a group imported straight into the root: new nodes, or assignments
+            # to root nodes of the same name
+            self.goto([])
+            self.emit({"k": "import", "indent": 0, "name": None, "ref": ref})
+            self.chain_valid = False
+            return
         if rng.random() < 0.5:
             self.goto([])
             self.emit({"k": "import", "indent": 0, "name": gname, "ref": ref})
